@@ -7,6 +7,9 @@ record of that function lies inside that step. Needs no exact solution; the gene
 g = s (h(t, y[, y']) - c) span 12 orders of magnitude in s, are monitored 1..6 at a time, with dense output on and off,
 on all method families and both directions, with crossings in step interiors and exactly on step boundaries
 (exact binary grids with y' = const). Only non-terminal events are generated here (C09 owns terminal ones).
+Part `near_tangent`: g = s (t - r1)(t - r2) with r1, r2 a hair (>= 8 ulp of t and >= 1e-10: outside the library's window
+eps^0.7 for "the same event") on either side of a step boundary, at t0 up to 2^24: two strict sign changes in two
+consecutive steps, both must be recorded.
 """
 import numpy as np
 from hypothesis import strategies as st
